@@ -76,11 +76,6 @@ theorem litArgs_mkLiteral (W : World α) (vs : List (LitVal α)) :
 
 /-! ### `_unfold_union_args` -/
 
-/-- the alternatives of a normal form: the args of a union, else the form itself -/
-def alts : Norm α → List (Norm α)
-  | .node .union args => args
-  | n => [n]
-
 theorem unfoldUnion_cons (n : Norm α) (ns : List (Norm α)) :
     unfoldUnion (n :: ns) = alts n ++ unfoldUnion ns := by
   cases n with
